@@ -7,17 +7,6 @@ in the inner map; `sbsc` is still `None`).
 namespace Rx.CRef
 open Rx.Sim Rx.SubjM Rx.Ref Rx.RefR
 
-def LayR.reg (L : LayR) (w : World) : LayR :=
-  ⟨L.roots ++ [w.obs.length], L.fwds ++ [w.obs.length + 1], L.sbs ++ [w.cells.length], L.acs⟩
-
-def regWorld (L : LayR) (w : World) (observers : List (Nat × Nat)) (serial : Nat) : World :=
-  { w with
-    obs := w.obs ++ [rootOfL w.cells.length w.users.length (regRec (serial + 1)),
-                     fwdOfL w.obs.length (regRec (serial + 1))]
-    users := w.users ++ [⟨w.obs.length, noReact, false, true⟩]
-    cells := ((w.cells ++ [Data.lnil]).set 3 (.int ((serial + 1 : Nat) : Int))).set 2
-      (encMap (mapL L observers ++ [(serial + 1, w.obs.length + 1)])) }
-
 theorem mapL_reg (L : LayR) (w : World) (l : List (Nat × Nat)) (hlenF : L.fwds.length = L.roots.length)
     (hl : ∀ p ∈ l, p.2 < L.roots.length) : mapL (L.reg w) l = mapL L l := by
   unfold mapL
@@ -75,37 +64,38 @@ theorem glob_reg {L : LayR} {cobs w} (g : Glob (L.roots ++ L.fwds) cobs w) (obse
         · exact hd1 a (by simp [ha]) b hb
         · simp at ha; subst ha; have := ltc b hb; omega
 
-theorem RelRp.registerUser {L cobs cacs armed w st} (h : RelRp L cobs cacs armed none none [] w st) :
-    RelRp (L.reg w) cobs cacs armed (some L.roots.length) (some L.roots.length) []
-      (regWorld L w st.sub.observers st.sub.serial)
-      { st with sub := { st.sub with serial := st.sub.serial + 1
-                                     observers := st.sub.observers ++ [(st.sub.serial + 1, L.roots.length)]
-                                     obs := upd st.sub.obs L.roots.length (regRec (st.sub.serial + 1)) } } := by
-  obtain ⟨g, U, X⟩ := h.ur
-  have g1 := glob_reg g st.sub.observers st.sub.serial
+theorem URr.registerUser {L cobs cacs Hd cg sb cn w} {s : SubjM.State}
+    (hur : URr L cobs cacs none none Hd cg sb cn w s) :
+    URr (L.reg w) cobs cacs (some L.roots.length) (some L.roots.length) Hd cg sb cn
+      (regWorld L w s.observers s.serial)
+      { s with serial := s.serial + 1
+               observers := s.observers ++ [(s.serial + 1, L.roots.length)]
+               obs := upd s.obs L.roots.length (regRec (s.serial + 1)) } := by
+  obtain ⟨g, U, X⟩ := hur
+  have g1 := glob_reg g s.observers s.serial
   have h9 : 9 < w.cells.length := lt_of_getElem?_some X.cellN
   have hacsl : L.acs.length = L.roots.length := by have := U.lenA; simpa using this
   have hcells : ∀ i, i ≠ 2 → i ≠ 3 → i < w.cells.length →
-      (regWorld L w st.sub.observers st.sub.serial).cells[i]? = w.cells[i]? := by
+      (regWorld L w s.observers s.serial).cells[i]? = w.cells[i]? := by
     intro i h2 h3 hi
     show (((w.cells ++ [_]).set 3 _).set 2 _)[i]? = _
     rw [set_get_other _ (Ne.symm h2), set_get_other _ (Ne.symm h3), get_app_lt _ _ _ hi]
-  have hobs : ∀ j, j < w.obs.length → (regWorld L w st.sub.observers st.sub.serial).obs[j]? = w.obs[j]? :=
+  have hobs : ∀ j, j < w.obs.length → (regWorld L w s.observers s.serial).obs[j]? = w.obs[j]? :=
     fun j hj => get_app_lt _ _ _ hj
-  have husr : ∀ j, j < w.users.length → (regWorld L w st.sub.observers st.sub.serial).users[j]? = w.users[j]? :=
+  have husr : ∀ j, j < w.users.length → (regWorld L w s.observers s.serial).users[j]? = w.users[j]? :=
     fun j hj => get_app_lt _ _ _ hj
-  have hmap : mapL (L.reg w) (st.sub.observers ++ [(st.sub.serial + 1, L.roots.length)]) =
-      mapL L st.sub.observers ++ [(st.sub.serial + 1, w.obs.length + 1)] := by
-    have := mapL_reg L w st.sub.observers U.lenF U.regBound
+  have hmap : mapL (L.reg w) (s.observers ++ [(s.serial + 1, L.roots.length)]) =
+      mapL L s.observers ++ [(s.serial + 1, w.obs.length + 1)] := by
+    have := mapL_reg L w s.observers U.lenF U.regBound
     simp only [mapL, List.map_append, List.map_cons, List.map_nil] at this ⊢
     rw [this]
     simp only [LayR.reg]
     rw [← U.lenF, rootAt_append_last]
   have U1 : UsersPartR (L.reg w) (some L.roots.length) (some L.roots.length)
-      (regWorld L w st.sub.observers st.sub.serial)
-      { st.sub with serial := st.sub.serial + 1
-                    observers := st.sub.observers ++ [(st.sub.serial + 1, L.roots.length)]
-                    obs := upd st.sub.obs L.roots.length (regRec (st.sub.serial + 1)) } := by
+      (regWorld L w s.observers s.serial)
+      { s with serial := s.serial + 1
+               observers := s.observers ++ [(s.serial + 1, L.roots.length)]
+               obs := upd s.obs L.roots.length (regRec (s.serial + 1)) } := by
     refine
       { lenF := by simp [LayR.reg, U.lenF], lenS := by simp [LayR.reg, U.lenS]
         lenA := by simp [LayR.reg, hacsl]
@@ -179,7 +169,7 @@ theorem RelRp.registerUser {L cobs cacs armed w st} (h : RelRp L cobs cacs armed
       exact U.quiet u (by omega)
     · intro p hp
       rcases List.mem_append.1 hp with hp | hp
-      · have := U.keys p hp; show p.1 ≤ st.sub.serial + 1; omega
+      · have := U.keys p hp; show p.1 ≤ s.serial + 1; omega
       · simp at hp; subst hp; exact Nat.le_refl _
     · intro p hp
       simp only [LayR.reg, List.length_append, List.length_cons, List.length_nil]
@@ -198,7 +188,7 @@ theorem RelRp.registerUser {L cobs cacs armed w st} (h : RelRp L cobs cacs armed
         · exact hd a ha' b hb
         · simp at ha'; subst ha'; have := (U.cellsGe b (List.mem_append_right _ hb)).2; omega
     · intro c hc
-      have hl : (regWorld L w st.sub.observers st.sub.serial).cells.length = w.cells.length + 1 := by
+      have hl : (regWorld L w s.observers s.serial).cells.length = w.cells.length + 1 := by
         simp [regWorld]
       rw [hl]
       have hc' : c ∈ (L.sbs ++ [w.cells.length]) ++ L.acs := hc
@@ -207,30 +197,48 @@ theorem RelRp.registerUser {L cobs cacs armed w st} (h : RelRp L cobs cacs armed
         · have := U.cellsGe c (List.mem_append_left _ hc'); omega
         · simp at hc'; subst hc'; omega
       · have := U.cellsGe c (List.mem_append_right _ hc'); omega
-  refine ⟨g1, h.held, ⟨g1, U1, ?_⟩, ?_⟩
-  · exact
-      { X with
-        cellG := (hcells 7 (by decide) (by decide) (by omega)).trans X.cellG
-        cellB := (hcells 8 (by decide) (by decide) (by omega)).trans X.cellB
-        cellN := (hcells 9 (by decide) (by decide) (by omega)).trans X.cellN
-        caGe := fun c hc => by
-          have hl : (regWorld L w st.sub.observers st.sub.serial).cells.length = w.cells.length + 1 := by
-            simp [regWorld]
-          rw [hl]; have := X.caGe c hc; omega
-        caDisj := fun c hc hm => by
-          have hm' : c ∈ (L.sbs ++ [w.cells.length]) ++ L.acs := hm
-          rcases List.mem_append.1 hm' with hm' | hm'
-          · rcases List.mem_append.1 hm' with hm' | hm'
-            · exact X.caDisj c hc (List.mem_append_left _ hm')
-            · simp at hm'; subst hm'; have := (X.caGe _ hc).2; omega
-          · exact X.caDisj c hc (List.mem_append_right _ hm') }
-  · refine h.conns.frame ?_ ?_ ?_ ?_
-    · exact hcells 0 (by decide) (by decide) (by omega)
-    · exact hcells 1 (by decide) (by decide) (by omega)
-    · intro i hi
-      exact hobs _ (g.cobsLt _ (rootAt_mem (h.conns.lenC ▸ hi)))
-    · intro i hi
-      have := X.caGe _ (rootAt_mem (l := cacs) (i := i) (by rw [X.lenCa, h.conns.lenC]; exact hi))
-      exact hcells _ (by omega) (by omega) this.2
+  refine ⟨g1, U1, ?_⟩
+  exact
+    { X with
+      cellG := (hcells 7 (by decide) (by decide) (by omega)).trans X.cellG
+      cellB := (hcells 8 (by decide) (by decide) (by omega)).trans X.cellB
+      cellN := (hcells 9 (by decide) (by decide) (by omega)).trans X.cellN
+      caGe := fun c hc => by
+        have hl : (regWorld L w s.observers s.serial).cells.length = w.cells.length + 1 := by
+          simp [regWorld]
+        rw [hl]; have := X.caGe c hc; omega
+      caDisj := fun c hc hm => by
+        have hm' : c ∈ (L.sbs ++ [w.cells.length]) ++ L.acs := hm
+        rcases List.mem_append.1 hm' with hm' | hm'
+        · rcases List.mem_append.1 hm' with hm' | hm'
+          · exact X.caDisj c hc (List.mem_append_left _ hm')
+          · simp at hm'; subst hm'; have := (X.caGe _ hc).2; omega
+        · exact X.caDisj c hc (List.mem_append_right _ hm') }
+
+theorem RelRp.registerUser {L cobs cacs armed w st} (h : RelRp L cobs cacs armed none none [] w st) :
+    RelRp (L.reg w) cobs cacs armed (some L.roots.length) (some L.roots.length) []
+      (regWorld L w st.sub.observers st.sub.serial)
+      { st with sub := { st.sub with serial := st.sub.serial + 1
+                                     observers := st.sub.observers ++ [(st.sub.serial + 1, L.roots.length)]
+                                     obs := upd st.sub.obs L.roots.length (regRec (st.sub.serial + 1)) } } := by
+  have hur' := h.ur.registerUser
+  obtain ⟨g, U, X⟩ := h.ur
+  have h9 : 9 < w.cells.length := lt_of_getElem?_some X.cellN
+  have hcells : ∀ i, i ≠ 2 → i ≠ 3 → i < w.cells.length →
+      (regWorld L w st.sub.observers st.sub.serial).cells[i]? = w.cells[i]? := by
+    intro i h2 h3 hi
+    show (((w.cells ++ [_]).set 3 _).set 2 _)[i]? = _
+    rw [set_get_other _ (Ne.symm h2), set_get_other _ (Ne.symm h3), get_app_lt _ _ _ hi]
+  have hobs : ∀ j, j < w.obs.length → (regWorld L w st.sub.observers st.sub.serial).obs[j]? = w.obs[j]? :=
+    fun j hj => get_app_lt _ _ _ hj
+  refine ⟨hur'.1, h.held, hur', ?_⟩
+  refine h.conns.frame ?_ ?_ ?_ ?_
+  · exact hcells 0 (by decide) (by decide) (by omega)
+  · exact hcells 1 (by decide) (by decide) (by omega)
+  · intro i hi
+    exact hobs _ (g.cobsLt _ (rootAt_mem (h.conns.lenC ▸ hi)))
+  · intro i hi
+    have := X.caGe _ (rootAt_mem (l := cacs) (i := i) (by rw [X.lenCa, h.conns.lenC]; exact hi))
+    exact hcells _ (by omega) (by omega) this.2
 
 end Rx.CRef
